@@ -465,6 +465,12 @@ def run(chk):
                      c11.replay_dict([], [], backed, reqs[:k + 1], k))
         for r in reqs:
             chk.count("class=" + r["cls"])
+    for (label, backed, reqs, oracle_only) in CS.scenarios():
+        if not oracle_only and not label.startswith("rename"):
+            for (k, kind, text, ep) in oracle_history(srv, backed, reqs, ex["routes"]):
+                r = reqs[k]
+                chk.fail(f"C10:{kind}:{ep}:{r.get('cls')}", f"{r['method']} {H.url_of(r)}: {text}",
+                         c11.replay_dict([], [], backed, reqs[:k + 1], k))
     directed(srv, chk)
     big_objs, big_reqs = CS.big_listing()
     paging_oracle(srv, chk, big_objs)
